@@ -293,6 +293,45 @@ def run(cx, rep):
                    "%s calls FsModuleResolver::resolve_import while building the value that is cached per file: the cached ParsedModule freezes a file-system answer" % c.fn.id,
                    "%s:%s" % (c.file, c.line))
         rep.ob("C14.4", "scan", True, sample={"functions_reachable_from_parse_and_bind": len(pr), "host_queries": len(hits)})
+    # ---------------------------------------------------------------- C14.6
+    rep.rule("C14.6", "the watch loop forwards every change of a watched file to the compiler before rebuilding")
+    cmd = cx.ts("packages/beff-wasm/ts-node/commandeer.ts")
+    cbs = []
+    for n in tsast.walk(cmd.module):
+        if n["type"] == "CallExpression":
+            mc = tsast.method_call(n)
+            if mc and mc[1] == "on" and mc[2] and tsast.s(mc[2][0]) == '"change"' and len(mc[2]) == 2:
+                cbs.append(mc[2][1])
+    rep.ob("C14.6", "change-handler", len(cbs) == 1, "expected exactly one chokidar `change` handler in commandeer.ts, found %d" % len(cbs), cmd.rel)
+    for cb in cbs:
+        fn = cb
+        if cb["type"] == "Identifier":
+            al = {}
+            for n in tsast.walk(cmd.module):
+                if n["type"] == "VariableDeclarator" and n["id"].get("value") == cb["value"] and n.get("init") is not None:
+                    fn = n["init"]
+        if fn.get("type") not in ("ArrowFunctionExpression", "FunctionExpression"):
+            rep.ob("C14.6", "change-handler/body", False, "change handler is not a function literal", cmd.loc(cb))
+            continue
+        from rules import ts_common
+        ps = ts_common.fn_params(fn)
+        upd = [n for n in tsast.walk(fn) if n["type"] == "CallExpression" and tsast.s(n["callee"]).replace("?", "").endswith(".updateFileContent")]
+        ex = [n for n in tsast.walk(fn) if n["type"] == "CallExpression" and tsast.s(n["callee"]) == "exec"]
+        al = ts_common.local_aliases(fn)
+        ok = len(upd) == 1 and len(ex) == 1 and upd[0]["span"]["start"] < ex[0]["span"]["start"]
+        if ok:
+            a0, a1 = [tsast.s(a["expression"]) for a in upd[0]["arguments"]]
+            src = al.get(a1)
+            ok = a0 == ps[0] and src is not None and tsast.s(src).startswith("fs.readFileSync(%s" % ps[0])
+        rep.ob("C14.6", "change-handler/update-then-rebuild", ok,
+               "on a change of file p the handler must call updateFileContent(p, <content just read from p>) and then rebuild", cmd.loc(fn),
+               sample={"update_calls": len(upd), "rebuild_calls": len(ex)})
+        # nothing may leave the handler between the read and the update (an edit that is skipped keeps the stale module cached)
+        early = [n for n in tsast.walk_no_nested_fn(fn["body"]) if n["type"] in ("ReturnStatement", "ContinueStatement", "BreakStatement") and upd and n["span"]["start"] < upd[0]["span"]["start"]]
+        cond = [i for i in tsast.walk(fn) if i["type"] in ("IfStatement", "ConditionalExpression") and upd and any(x is upd[0] for x in tsast.walk(i))]
+        rep.ob("C14.6", "change-handler/unconditional", not early and not cond,
+               "the change handler can skip updateFileContent (%s): the session cache then keeps the module parsed from the old text and later rebuilds differ from a fresh process" % (
+                   "early exit before the update" if early else "update is conditional"), cmd.loc((early or cond or [fn])[0]))
     # ---------------------------------------------------------------- C14.5
     rep.rule("C14.5", "JS caches keyed by file are invalidated by Bundler.updateFileContent")
     upd = bc.method_fn("updateFileContent")
